@@ -103,9 +103,9 @@ func genC19Ops(g *Gen, n int) []Op {
 
 func runC19(cfg runCfg, res *Result) error {
 	g := newGen(cfg.seed)
-	rounds := 40
+	rounds := 90
 	if cfg.tier == "thorough" {
-		rounds = 250
+		rounds = 600
 	}
 	report := func(kind, why string, payload any) {
 		os.MkdirAll(cfg.replayDir, 0o755)
@@ -182,7 +182,15 @@ func c19Round(g *Gen, dir string, rc *c19Case, res *Result) (string, c19Case, er
 		cs = *rc
 	} else {
 		cs.A = append(g.seedOps(1), genC19Ops(g, 10+g.r.Intn(30))...)
-		if g.chance(0.45) {
+		if x := g.r.Intn(100); x < 25 {
+			// a single removal after the save, in each of the ways a key can go away (a key that only
+			// gets a deadline in the past stays stored: the dirty flag is all that makes the saver write)
+			k := g.key()
+			cs.B = []Op{[]Op{mkOp(1, "UNLINK", k), mkOp(1, "UNLINK", k, g.key()), mkOp(1, "EXPIRE", k, "-1"), mkOp(1, "PEXPIRE", k, "0"), mkOp(1, "EXPIREAT", k, "1"),
+				mkOp(1, "PEXPIREAT", k, "1"), mkOp(1, "GETEX", k, "PXAT", "1"), mkOp(1, "GETEX", k, "EX", "-1"), mkOp(1, "DEL", k), mkOp(1, "GETDEL", k), mkOp(1, "RENAME", k, g.key()),
+				mkOp(1, "LTRIM", k, "1", "0"), mkOp(1, "SPOP", k, "100"), mkOp(1, "HDEL", k, "f1", "f2", "f3", "f4"), mkOp(1, "LPOP", k, "100"), mkOp(1, "SET", k, "v", "PX", "1"),
+				mkOp(1, "SINTERSTORE", k, "nokey", "nokey2"), mkOp(1, "SORT", "nokey", "STORE", k), mkOp(1, "BITOP", "AND", k, "nokey"), mkOp(1, "LMOVE", k, g.key(), "LEFT", "LEFT")}[g.r.Intn(20)]}
+		} else if x < 55 {
 			// a single change after the save: nothing else can set the dirty flag for it
 			cs.B = []Op{g.typedWrite(1, g.key())}
 		} else {
